@@ -44,13 +44,14 @@ relational facts are checked up to the forward rounding bound of the documented 
 formula in float64 (geodesy_model.arc_bound / chord_bound); "zero for coincident points" is exact.
 """
 import os
+import random
 import traceback
 
 import numpy as np
 
 from vt.core import np_rng_for, Recorder
 from vt.models import geodesy_model as M
-from vt.monitors import history
+from vt.monitors import concurrency, history
 
 ID = "C07"
 LEVEL = "exploration"
@@ -410,6 +411,25 @@ def call(F, fname, *a, **kw):
             _S.setdefault("hist", {})[hk] = _S.setdefault("hist", {}).get(hk, 0) + 1
             if verdict == "stale":
                 F.add("stale-state", None, dict(detail, func=fname))
+                raise Abort()
+        big = any(isinstance(v, np.ndarray) and v.ndim >= 1 and v.shape[0] >= 64 for v in a)
+        if big:
+            _S["c_" + fname] = _S.get("c_" + fname, 0) + 1    # (own counter: the first eight calls with arrays of a process, then about a third)
+        if big and (_S["c_" + fname] <= 8 or random.Random(_S["c_" + fname]).random() < 0.34):   # (a fixed period would alias with the
+            # fixed order of ellipsoids / sequences)
+            # calls of the same shapes from several threads at once (vt/monitors/concurrency.py); the
+            # variants are the arguments rolled along their first axis (values stay in the domain)
+            fn0 = _S["orig"].get(fname) or getattr(_S["g"], fname)
+            calls = [(fn0, tuple(np.roll(v, k * 7, axis=0) if isinstance(v, np.ndarray) and v.ndim >= 1
+                                 and v.shape[0] >= 64 else v for v in a), dict(kw)) for k in range(4)]
+            verdict, detail = concurrency.concurrent_check(calls, threads=4, rounds=3,
+                                                           yield_in=getattr(_S["g"], "__file__", None))
+            ecc = any(isinstance(v, tuple) and len(v) == 2 and v[1] > 0 for v in a) or \
+                (fname in ("cart2geodetic", "geodetic2cart") and not any(isinstance(v, tuple) for v in a))
+            hk = "concurrent.%s.%s%s" % (verdict.replace("/", ""), fname, ".eccentric" if ecc else "")
+            _S.setdefault("hist", {})[hk] = _S.setdefault("hist", {}).get(hk, 0) + 1
+            if verdict == "race":
+                F.add("concurrent-calls-interfere", None, dict(detail, func=fname))
                 raise Abort()
         if _S["n_" + fname] % 4 == 2:
             # the same call with the documented parameter names, written in the opposite order
